@@ -252,7 +252,15 @@ def gen_pretrained(rng):
     pairs = [tuple(rng.sample(PRE_WORDS, 2)) for _ in range(rng.randint(2, 4))]
     words, items = [], []
     for a, b in pairs:
-        kind = rng.choice(['whole_pretrained', 'whole_pretrained', 'parts_pretrained', 'nothing'])
+        kind = rng.choice(['whole_pretrained', 'whole_pretrained', 'parts_pretrained', 'nothing', 'long_whole'])
+        if kind == 'long_whole':
+            # a compound of 17-20 letters that is itself frequent (a pass phrase many people use), made of frequent words: frequent wholes stay whole
+            parts = rng.sample([w for w in PRE_WORDS if len(w) == 4] + ['correct', 'horse', 'battery', 'staple', 'dragon', 'monkey'], 3)
+            whole = ''.join(parts)
+            if 17 <= len(whole) <= 20:
+                items += [[w + rng.choice(['1', '!', '22']), rng.randint(5, 7)] for w in parts]
+                items.append([rng.choice([whole, whole + '1', whole.capitalize()])[:21], rng.randint(5, 8)])
+            continue
         if kind == 'whole_pretrained':
             words.append(rng.choice([a + b, (a + b).capitalize(), a + b + ' 7']))
             items += [[a + rng.choice(['1', '!', '99']), rng.randint(5, 7)], [b + rng.choice(['2', '#', '07']), rng.randint(5, 7)]]
